@@ -1032,6 +1032,13 @@ MUTANTS = [
     dict(id="C09.i-streaming-scan-polled-once", prop="C09", file="crates/storage/src/key_of_set_map/cache.rs",
          old="                // First drain from db_iter\n                for item in db_iter.by_ref() {", new="                // First drain from db_iter\n                if let Some(item) = db_iter.next() {",
          expect="C09.i/merge/filtered-source-is-drained-in-a-loop"),
+    dict(id="C12.l-read_raw_bytes-chunks-overwrite-the-prefix", prop="C12", file="crates/serialize/src/postcard.rs",
+         old='        let mut buf = vec![0u8; len];\n        self.reader.read_exact(&mut buf)?;\n        Ok(buf)',
+         new='        const CHUNK: usize = 4096;\n        let mut buf = Vec::with_capacity(len.min(CHUNK));\n        let mut remaining = len;\n        while remaining > 0 {\n            let chunk = remaining.min(CHUNK);\n            buf.resize(buf.len() + chunk, 0);\n            self.reader.read_exact(&mut buf[..chunk])?;\n            remaining -= chunk;\n        }\n        Ok(buf)',
+         expect="C12.l/raw-reads/every-iteration-fills-fresh-bytes"),
+    dict(id="C12.l-read_raw_bytes-buffer-one-short", prop="C12", file="crates/serialize/src/postcard.rs",
+         old="        let mut buf = vec![0u8; len];\n        self.reader.read_exact(&mut buf)?;", new="        let mut buf = vec![0u8; len.saturating_sub(1)];\n        self.reader.read_exact(&mut buf)?;",
+         expect="C12.l/read_raw_bytes/buffer-sized-by-the-requested-length"),
     dict(id="C12.k-varint-reader-u128-stops-on-set-bit", prop="C12", file="crates/serialize/src/postcard.rs",
          old="            result |= u128::from(byte & 0x7F) << shift;\n\n            if byte & 0x80 == 0 {",
          new="            result |= u128::from(byte & 0x7F) << shift;\n\n            if byte & 0x80 != 0 {",
